@@ -25,7 +25,8 @@ XSD = '''<xs:schema xmlns:xs="http://www.w3.org/2001/XMLSchema" targetNamespace=
  <xs:element name="sub" type="t:sec" minOccurs="0" maxOccurs="unbounded"/>
  <xs:any namespace="##other" processContents="lax" minOccurs="0" maxOccurs="unbounded"/>
 </xs:sequence><xs:attribute name="code" type="xs:string"/></xs:complexType>
-<xs:element name="root"><xs:complexType><xs:sequence><xs:element name="s" type="t:sec" maxOccurs="unbounded"/></xs:sequence>
+<xs:element name="root"><xs:complexType><xs:sequence><xs:element name="s" type="t:sec" maxOccurs="unbounded">
+   <xs:unique name="UL"><xs:selector xpath="t:link"/><xs:field xpath="@to"/></xs:unique></xs:element></xs:sequence>
   <xs:attribute name="default" type="xs:int"/></xs:complexType>
  <xs:keyref name="RD" refer="t:K"><xs:selector xpath="."/><xs:field xpath="@default"/></xs:keyref>
  <xs:key name="K"><xs:selector xpath="t:s/t:item"/><xs:field xpath="@n"/></xs:key>
@@ -62,7 +63,7 @@ def gen_doc(rng, big=False, faults=True):
     def link():
         a = {}
         if rng.random() < 0.7:
-            a['to'] = str(rng.randint(1, 12) if faults else rng.randint(1, 3))
+            a['to'] = str(rng.choice([rng.randint(1, 12), rng.randint(1, 2)]) if faults else rng.randint(1, 3))
         if rng.random() < 0.4:
             a['r'] = 'i%d' % rng.randint(1, 6 if faults else 1)
         return {'tag': 'link', 'attrs': a, 'text': None, 'decls': [], 'kids': []}
@@ -70,7 +71,7 @@ def gen_doc(rng, big=False, faults=True):
     def sec(tag, d):
         kids = [{'tag': 'title', 'attrs': {}, 'text': 'T', 'decls': [], 'kids': []}]
         kids += [item() for _ in range(rng.randint(0, 40 if big else 3))]
-        kids += [link() for _ in range(rng.randint(0, 2))]
+        kids += [link() for _ in range(rng.randint(0, 3))]
         if d < 2:
             kids += [sec('sub', d + 1) for _ in range(rng.choice([0, 0, 1, 2]))]
         if rng.random() < 0.3:
@@ -78,6 +79,10 @@ def gen_doc(rng, big=False, faults=True):
         a = {'code': 'c%d' % rng.randint(1, 4 if faults else 1000)} if rng.random() < 0.6 else {}
         return {'tag': tag, 'attrs': a, 'text': None, 'decls': decls(), 'kids': kids}
     kids = [sec('s', 0) for _ in range(rng.randint(1, 25 if big else 4))]
+    if faults and len(kids) > 1 and rng.random() < 0.4:
+        # a duplicated link value inside a later section: violates the unique constraint declared on the section element
+        later = rng.choice(kids[1:])
+        later['kids'] += [{'tag': 'link', 'attrs': {'to': '1'}, 'text': None, 'decls': [], 'kids': []} for _ in range(2)]
     # a key reference held by the root itself (selector "."): processed after all the streamed chunks
     rattrs = {'default': str(rng.randint(1, 12) if faults else 1)} if rng.random() < 0.5 else {}
     return {'tag': 'root', 'attrs': rattrs, 'text': None, 'decls': [], 'kids': kids}
@@ -105,6 +110,14 @@ def ensure_valid_refs(doc):
                     n['attrs']['r'] = ids[0]
                 else:
                     del n['attrs']['r']
+    # the unique constraint UL of a top-level section: one link with a 'to' value per section
+    for sec in doc['kids']:
+        seen = False
+        for k in sec['kids']:
+            if k['tag'] == 'link' and 'to' in k['attrs']:
+                if seen:
+                    del k['attrs']['to']
+                seen = True
 
 
 def nodes(n, a=()):
@@ -183,7 +196,8 @@ def subject(case):
                         chunk_ns.append(sorted((k, v) for k, v in res.get_nsmap(x).items() if k not in ('t',)))
                 r['chunk_nsmap'] = chunk_ns
                 res = xmlschema.XMLResource(xml, lazy=depth, thin_lazy=thin)
-                r['find'] = [e.attrib.get('n') for e in res.iterfind('t:s/t:item', namespaces={'t': 'urn:z'})]
+                # (a path deeper than the lazy depth is refused by design for lazy_depth >= 3)
+                r['find'] = [e.attrib.get('n') for e in res.iterfind('t:s/t:item', namespaces={'t': 'urn:z'})] if depth < 3 else None
                 res = xmlschema.XMLResource(xml, lazy=depth, thin_lazy=thin)
                 r['find1'] = [len(e) for e in res.iterfind('t:s', namespaces={'t': 'urn:z'})] if depth == 1 else None
                 r['path_errors'] = err_list(s.iter_errors(xmlschema.XMLResource(xml, lazy=depth, thin_lazy=thin), path='t:s',
@@ -251,9 +265,15 @@ def evaluate(ctx, cases):
             if 'exc' in r:
                 sink.append('lazy=%s: %s' % (cfg, r['exc']))
                 continue
+            # verdict and errors (as a multiset: the chunked traversal may report them in another order) are claimed for
+            # every lazy depth; the order is claimed for depth 1
             if r['valid'] != o['eager_valid']:
-                sink.append('lazy=%s verdict %s, loaded %s' % (cfg, r['valid'], o['eager_valid']))
-            if r['errors'] != o['eager_errors']:
+                problems.append('lazy=%s verdict %s, loaded %s' % (cfg, r['valid'], o['eager_valid']))
+            if sorted(r['errors']) != sorted(o['eager_errors']):
+                miss = [x for x in o['eager_errors'] if x not in r['errors']]
+                extra = [x for x in r['errors'] if x not in o['eager_errors']]
+                problems.append('lazy=%s errors differ from the loaded document: missing %s, extra %s' % (cfg, miss[:3], extra[:3]))
+            elif r['errors'] != o['eager_errors']:
                 sink.append('lazy=%s errors %s, loaded document %s' % (cfg, r['errors'][:4], o['eager_errors'][:4]))
             if r['json'] != o['eager_json']:
                 if claimed and strip_chunk_xmlns(r['json']) == strip_chunk_xmlns(o['eager_json']):
@@ -277,7 +297,7 @@ def evaluate(ctx, cases):
                 sink.append('lazy=%s iterfind(t:s) gives %d chunks, loaded tree %d' % (cfg, len(r['find1']), len(o['eager_find1'])))
             if claimed and r['path_errors'] != o['eager_path_errors']:
                 sink.append('lazy=%s iter_errors(path=t:s) gives %s, loaded tree %s' % (cfg, r['path_errors'][:3], o['eager_path_errors'][:3]))
-            if r['find'] != o['eager_find']:
+            if r['find'] is not None and r['find'] != o['eager_find']:
                 sink.append('lazy=%s iterfind(t:s/t:item) gives %d items, loaded tree %d' % (cfg, len(r['find']), len(o['eager_find'])))
         if explored:
             ctx.dist('explored_deeper_lazy_depths', 'differences', len(explored))
